@@ -24,7 +24,7 @@ fn decode_encode(first_lo: u8, first_hi: u8) {
                 i += 1;
             }
         }
-        Err(_) => {}
+        Err(e) => { std::mem::forget(e); }   // io::Error's drop glue is irrelevant to the claim and costly for CBMC
     }
 }
 
@@ -56,7 +56,7 @@ fn enc_dec(op: OpCode) {
         let mut input: &[u8] = &out[..];
         match OpCode::decode(&mut input) {
             Ok(back) => { assert!(back == op); assert!(input.len() == 2); assert!(n >= 1); }
-            Err(_) => assert!(false),
+            Err(e) => { std::mem::forget(e); assert!(false) }
         }
     }
 }
